@@ -167,10 +167,11 @@ def body(ctx):
                 ok = bool(rep)
             if isint and K.denominator == 1 and K >= 10 ** 6 and K <= model.type_max(r):
                 Ks.add(int(K))
-            code = "void w() { (void)au::inverse_in(%s{}, au::make_quantity<%s>(%s{5})); (void)au::inverse_as(%s{}, au::make_quantity<%s>(%s{5})); }" % (
-                U(tp, "Seconds"), U(sp, "Hertz"), r, U(tp, "Seconds"), U(sp, "Hertz"), r)
-            items.append(witness.Item("inv:%s%s<-%s%s:%s" % (tp, "Seconds", sp, "Hertz", r), code, "accept" if ok else "reject", None,
-                                      dict(desc="unit-only inverse of %s into %s with rep %s: K = 10^%d; accepted iff floating or K >= 10^6 fits" % (U(sp, "Hertz"), U(tp, "Seconds"), r, -(te + se)))))
+            # (one witness per function: a must-not-compile witness with both would be satisfied by either)
+            for fn in ("inverse_in", "inverse_as"):
+                code = "void w() { (void)au::%s(%s{}, au::make_quantity<%s>(%s{5})); }" % (fn, U(tp, "Seconds"), U(sp, "Hertz"), r)
+                items.append(witness.Item("inv:%s:%s%s<-%s%s:%s" % (fn, tp, "Seconds", sp, "Hertz", r), code, "accept" if ok else "reject", None,
+                                          dict(desc="unit-only %s of %s into %s with rep %s: K = 10^%d; accepted iff floating or K >= 10^6 fits" % (fn, U(sp, "Hertz"), U(tp, "Seconds"), r, -(te + se)))))
     # generated grid with non-decimal K
     for n, (kk, exp_ok) in enumerate([(20000, False), (999999, False), (1000000, True), (1000001, True), (3 * 10 ** 6, True), (32767, False), (16960, False)]):
         for r in ("int16_t", "int32_t", "int64_t"):
